@@ -38,8 +38,9 @@ NTeams(shape) == IF shape = "1-1-2" THEN 3 ELSE 2
 \* the values substituted (foreign: a rating of the next model kind; own: a rating of this kind)
 Bad(b, fb) == <<PNone, PInt("3"), PFloat("2.5"), PStr("abc"), PTuple(<<PInt("1"), PInt("2")>>), PV("dict", ""), PV("set", ""),
                 PV("obj", "object"), PList(<<>>), PList(<<PList(<<PInt("1")>>), PList(<<PInt("2")>>)>>), L(fb + 1), L(b + 4),
-                PList(<<L(b + 4)>>), PBool(TRUE), PInt("-2"), PFloat("-0.0"), PFloat("1e+16")>>
-NBad == 17
+                PList(<<L(b + 4)>>), PBool(TRUE), PInt("-2"), PFloat("-0.0"), PFloat("1e+16"),
+                PV("numlike", "2"), PV("numlike", "1"), PV("numlike", "0")>>     \* Decimal objects equal to an element of DefaultSel
+NBad == 20
 
 RECURSIVE Subst(_, _, _)
 Subst(p, path, val) == IF path = <<>> THEN val
@@ -96,8 +97,8 @@ CallOf(p) ==
   IN  [m |-> ki, op |-> op, teams |-> teams, ranks |-> ranks, scores |-> scores, tau |-> PNone, limit |-> PNone]
 
 \* falsy non-list selectors are treated by the library as omitted; the property does not speak about them
-Unspecified(c) == \/ (c.ranks.t \in {"float", "int"} /\ RIsReal(c.ranks.v) /\ RIsZero(c.ranks.v))
-                  \/ (c.scores.t \in {"float", "int"} /\ RIsReal(c.scores.v) /\ RIsZero(c.scores.v))
+Unspecified(c) == \/ (c.ranks.t \in {"float", "int", "numlike"} /\ RIsReal(c.ranks.v) /\ RIsZero(c.ranks.v))
+                  \/ (c.scores.t \in {"float", "int", "numlike"} /\ RIsReal(c.scores.v) /\ RIsZero(c.scores.v))
 
 MCInit == Init /\ pend \in {p \in Pending : ~Unspecified(CallOf(p))}
 MCNext == LET c == CallOf(pend) IN (IF c.op = "rate" THEN Rate(c) ELSE Predict(c)) /\ UNCHANGED pend
